@@ -53,7 +53,10 @@ type c12Form struct {
 	Name string
 }
 
-var c12Forms = []c12Form{{"pkgdir-rel"}, {"modroot-rel"}, {"out-flag"}, {"abs"}}
+// "via-symlink": absolute input path through a symbolic link to the module root, started outside the module
+// (the output path then is spelled through the link as well); "out-otherdir": -out into a directory of
+// its own, where the old output is the only Go file.
+var c12Forms = []c12Form{{"pkgdir-rel"}, {"modroot-rel"}, {"out-flag"}, {"abs"}, {"via-symlink"}, {"out-otherdir"}}
 
 const c12OutFlagName = "aa_conv.gen.go" // sorts before every generated sibling name
 
@@ -68,6 +71,10 @@ func (f c12Form) spec(root string, sc *c12Scen) (args []string, dir, out string)
 		return []string{"-out", c12OutFlagName, filepath.Base(sc.SetupRel)}, filepath.Join(root, sc.PkgRel), filepath.Join(root, sc.PkgRel, c12OutFlagName)
 	case "abs":
 		return []string{setupAbs}, filepath.Join(root, "vtr"), defOut
+	case "via-symlink":
+		return []string{filepath.Join(root+"-lnk", sc.SetupRel)}, filepath.Dir(root), defOut
+	case "out-otherdir":
+		return []string{"-out", "../c12out/conv.gen.go", filepath.Base(sc.SetupRel)}, filepath.Join(root, sc.PkgRel), filepath.Join(root, "c12out", "conv.gen.go")
 	}
 	return []string{filepath.Base(sc.SetupRel)}, filepath.Join(root, sc.PkgRel), defOut
 }
@@ -304,6 +311,12 @@ func (sc *c12Scen) materialise(root string, files map[string]string, setup strin
 	}
 	if err := core.WriteTree(root, c12LegacyFiles); err != nil {
 		return err
+	}
+	if err := os.MkdirAll(filepath.Join(root, "c12out"), 0o755); err != nil {
+		return err
+	}
+	if _, err := os.Lstat(root + "-lnk"); err != nil {
+		_ = os.Symlink(filepath.Base(root), root+"-lnk")
 	}
 	if setup != "" {
 		return os.WriteFile(filepath.Join(root, sc.SetupRel), []byte(setup), 0o644)
